@@ -274,8 +274,9 @@ Section PathStr.
           match tail with
           | [] => (cond ++ lit "?" ++ ts ++ lit ":" ++ fs, true)
           | _ =>
-              let ext := lit ".concat(" ++ lvalue_br model path ++ lit ")" in
-              (cond ++ lit "?(" ++ ts ++ lit ")" ++ (if tok then ext else []) ++ lit ":(" ++ fs ++ lit ")" ++ (if fok then ext else []), true)
+              (* Q.e(path, rest): the rest appended to the path of the branch, `null` staying `null` *)
+              let ext := lit "," ++ lvalue_br model path in
+              (cond ++ lit "?Q.e(" ++ ts ++ (if tok then ext else []) ++ lit "):Q.e(" ++ fs ++ (if fok then ext else []) ++ lit ")", true)
           end
       | _ => (lvalue_br model path, true)
       end
